@@ -1033,18 +1033,16 @@ theorem parallel_blocks {st : St} {fns} (p : PlainS st fns) (f g : St → St) (d
   have R := restore_adds p.plain A1
   exact parallel_adds p.plain A1 (hg _ (R.plainS p))
 
-/-- `node.returns = self._process_annotation(node.returns)` when there is a return annotation
-    (`f` stands for the visit of the annotation, `d` for its effect). -/
-theorem returns_adds (returns : List Expr) (f : St → St) (d : Eff) (hd : returns = [] → d = {}) {st : St} {fns}
-    (p : PlainS st fns) (ih : ∀ s, Plain s → InCtx s fns false true → Adds s (f s) d) :
-    Adds st (match returns with
-             | [] => st
-             | _ => (f (st.setInAnno true)).setInAnno false) d := by
+/-- `if node.returns: node.returns = self._process_annotation(node.returns)`. -/
+theorem returnsStep_adds (returns : List Expr) {st : St} {fns} (p : PlainS st fns)
+    (ih : ∀ s, Plain s → InCtx s fns false true → Adds s (visitEs returns s) (effEs fns false true returns)) :
+    Adds st (if returns.isEmpty = true then st else (visitEs returns (st.setInAnno true)).setInAnno false)
+      (effEs fns false true returns) := by
   cases returns with
-  | nil => rw [hd rfl]; exact Adds.refl p.plain
+  | nil => simpa [effEs] using Adds.refl p.plain
   | cons r rs =>
     obtain ⟨hp, hc⟩ := p.setInAnno
-    exact anno_bracket p (ih _ hp hc)
+    simpa using anno_bracket p (ih _ hp hc)
 
 mutual
 theorem visitS_adds : (s : Stmt) → (st : St) → (fns : List FnCtx) → PlainS st fns → FragS s = true →
@@ -1227,8 +1225,7 @@ theorem visitS_adds : (s : Stmt) → (st : St) → (fns : List FnCtx) → PlainS
         -- the def statement's own scope
         have p1 := p0.enter false none
         have A1 := visitEs_adds decos _ p1.plain hdec _ false false p1.ctx
-        have A2 := A1.trans (returns_adds returns (visitEs returns) (effEs (.fn i name :: fns) false true returns)
-          (fun h => by subst h; rfl) (A1.plainS p1)
+        have A2 := A1.trans (returnsStep_adds returns (A1.plainS p1)
           (fun s hs hc => visitEs_adds returns s hs hret _ false true hc))
         have A3 := A2.trans (visitEs_adds kd _ A2.plain hkd _ false false (A2.inCtx p1.ctx))
         have A4 := A3.trans (visitEs_adds df _ A3.plain hdf _ false false (A3.inCtx p1.ctx))
